@@ -109,6 +109,16 @@ class Canon(ast.NodeTransformer):
         # 'text' + x  ==  f'text{x}'  (x must be a string for the sum to work)
         if isinstance(n.op, ast.Add) and (self._is_strlike(n.left) or
                                           self._is_strlike(n.right)):
+            # (not if the other operand contains string constants itself:
+            # nested quotes / backslashes cannot be written inside an
+            # f-string expression before Python 3.12)
+            for side in (n.left, n.right):
+                if not self._is_strlike(side) and any(
+                        isinstance(x, (ast.Constant, ast.JoinedStr)) and (
+                            isinstance(x, ast.JoinedStr) or
+                            isinstance(x.value, (str, bytes)))
+                        for x in ast.walk(side)):
+                    return n
             return self._join(self._parts(n.left) + self._parts(n.right), n)
         return n
 
@@ -159,6 +169,22 @@ class Canon(ast.NodeTransformer):
 
     def visit_Assign(self, n):
         self.generic_visit(n)
+        # `a, b = x, y` (plain names, no name read on the right) is written
+        # as two assignments
+        if len(n.targets) == 1 and isinstance(n.targets[0], ast.Tuple) and \
+                isinstance(n.value, ast.Tuple) and len(n.value.elts) == len(
+                    n.targets[0].elts) >= 2 and all(
+                    isinstance(t, ast.Name) for t in n.targets[0].elts):
+            tn = {t.id for t in n.targets[0].elts}
+            reads = {x.id for v in n.value.elts for x in ast.walk(v)
+                     if isinstance(x, ast.Name)}
+            if not (tn & reads) and len(tn) == len(n.targets[0].elts):
+                out = []
+                for t, v in zip(n.targets[0].elts, n.value.elts):
+                    a = ast.copy_location(ast.Assign([t], v), n)
+                    r = self._stmt_ifexp(a)
+                    out.extend(r if isinstance(r, list) else [r])
+                return out
         return self._stmt_ifexp(n)
 
     def visit_Expr(self, n):
